@@ -23,7 +23,7 @@ from .. import protocols
 from ..harness import arr, integer, scalar
 from ..interp import State
 from ..nf import A, P_atom
-from ..terms import T, vconst
+from ..terms import Dim, T, vconst
 from . import pcovr_common as pc
 
 FLOOR = 40
@@ -85,7 +85,7 @@ def check(ctx):
         tag = "1-D y" if oned else "2-D y"
         ctx.compare("NF-API", f"fit: pxy_ = pxt_ @ pty_ [{tag}]", N, ctx.attr(st, o, "pxy_"), T("matmul", pxt.term, T("sym", "pty")), site, tag)
         ctx.compare("NF-API", f"fit: components_ = pxt_^T [{tag}]", N, ctx.attr(st, o, "components_"), T("T", pxt.term), site, tag)
-        ctx.compare("NF-API", f"fit: mean_ = column means of X [{tag}]", N, ctx.attr(st, o, "mean_"), T("mean", X.term, ("axis", T("const", Fraction(0)))), site, tag)
+        ctx.compare("NF-API", f"fit: mean_ = column means of X [{tag}]", N, ctx.attr(st, o, "mean_"), T("mean", X.term, ("axis", T("const", Fraction(0))), ("n", T("dim", Dim.of("N")))), site, tag)
         ctx.shape_is("R-1D", f"fit: pty_ shape [{tag}]", ctx.attr(st, o, "pty_"), ("K",) if oned else ("K", "P"), site, tag)
         ctx.shape_is("R-1D", f"fit: pxy_ shape [{tag}]", ctx.attr(st, o, "pxy_"), ("M",) if oned else ("M", "P"), site, tag)
         nc = ctx.attr(st, o, "n_components_")
